@@ -138,7 +138,10 @@ def run(ctx, chk):
             chk.ob("G01/none", "SeqSlice::get", len(nones) == 1 and gset(res[id(nones[0])]) == {cmp(P(2), "Ge", L(P(1)))},
                    "None under %s, expected exactly {i >= len}" % [gshow(gset(res[id(p)])) for p in nones], b["span"])
             for p in somes:
-                chk.ob("G01/item", "SeqSlice::get", an.is_decode(opt_kind(p.ret)[1]) == ("sym1", P(1), canon(P(2))),
+                v = opt_kind(p.ret)[1]
+                # the item may also be taken through nth(i), whose own row (S-nth) is decode(self[i])
+                via_nth = an.is_call(v, re.compile(r"^seq::slice::SeqSlice::<A>::nth$"), (P(1), P(2)))
+                chk.ob("G01/item", "SeqSlice::get", via_nth or an.is_decode(v) == ("sym1", P(1), canon(P(2))),
                        "Some(%s), expected decode(self[i])" % show(opt_kind(p.ret)[1]), b["span"])
         b = an.one(chk, "S-nth", bio, "SeqSlice::nth", name="nth", self_re=r"^seq::slice::SeqSlice<A>$", inherent=True)
         if b:
